@@ -260,7 +260,7 @@ func (p Proxy) ServeHTTP(w http.ResponseWriter, r *http.Request) (int, error) {
 			return 0, nil
 		}
 
-		if backendErr == httpserver.ErrMaxBytesExceeded {
+		if errors.Is(backendErr, httpserver.ErrMaxBytesExceeded) {
 			return http.StatusRequestEntityTooLarge, backendErr
 		}
 
